@@ -113,6 +113,8 @@ def do_run(sid, checks=None):
     finally:
         rm_worktree(wt)
         shutil.rmtree(os.path.join(ROOT, "work", "seed-" + sid), ignore_errors=True)
+    if os.environ.get("SEEDTEST_NOMETA"):      # a robustness run with another seed: the table keeps the default seed's verdict
+        return res
     meta.setdefault("check_results", {}).update(res)
     json.dump(meta, open(os.path.join(d, "meta.json"), "w"), indent=1)
     return res
